@@ -2,6 +2,9 @@ import Usual.C04.Parse
 /-! Helper lemmas for C04: the parser model inverts the ERE renderer on the bracket-free
 fragment `wfE`.  Two layers: the lexer maps the rendered text to the token list `toksE`, and
 the token parser maps `toksE r` back to (the case-folded) `r`. -/
+set_option linter.unnecessarySimpa false
+set_option linter.unusedSimpArgs false
+
 namespace Usual.C04
 open Usual.Gen.C04
 
@@ -85,7 +88,7 @@ theorem takeWhile_append_stop {p : UInt8 → Bool} : ∀ (l : List UInt8) (c : U
     (∀ d, d ∈ l → p d = true) → p c = false → (l ++ c :: r).takeWhile p = l := by
   intro l
   induction l with
-  | nil => intro c r _ hc; simp [List.takeWhile, hc]
+  | nil => intro c r _ hc; simp [hc]
   | cons x xs ih =>
     intro c r hall hc
     have hx : p x = true := hall x List.mem_cons_self
@@ -96,7 +99,7 @@ theorem dropWhile_append_stop {p : UInt8 → Bool} : ∀ (l : List UInt8) (c : U
     (∀ d, d ∈ l → p d = true) → p c = false → (l ++ c :: r).dropWhile p = c :: r := by
   intro l
   induction l with
-  | nil => intro c r _ hc; simp [List.dropWhile, hc]
+  | nil => intro c r _ hc; simp [hc]
   | cons x xs ih =>
     intro c r hall hc
     have hx : p x = true := hall x List.mem_cons_self
@@ -127,7 +130,7 @@ theorem strtoul_digits (m : Nat) (hm : m < 2 ^ 64) (c : UInt8) (r : List UInt8)
     simp [isDigitB, isDigitN] at hd0
   have hdrop : (digits m ++ c :: r).dropWhile isSpaceB = digits m ++ c :: r := by
     rw [hds]
-    simp [List.dropWhile_cons, hsp]
+    simp [hsp]
   have hsign : signOf (digits m ++ c :: r) = (false, digits m ++ c :: r) := by
     rw [hds]
     simp [signOf, h45, h43]
@@ -142,7 +145,7 @@ theorem strtoul_digits (m : Nat) (hm : m < 2 ^ 64) (c : UInt8) (r : List UInt8)
 theorem strtoul_none_of_nondigit (c : UInt8) (r : List UInt8) (h1 : isSpaceB c = false)
     (h2 : c ≠ 45) (h3 : c ≠ 43) (h4 : isDigitB c = false) : strtoul (c :: r) = none := by
   unfold strtoul
-  simp [List.dropWhile_cons, h1, signOf, h2, h3, List.takeWhile_cons, h4]
+  simp [h1, signOf, h2, h3, h4]
 
 theorem max_count_lt : MAX_COUNT < 2 ^ 64 := by decide
 
